@@ -16,6 +16,7 @@ import (
 	"verifharness/c07"
 	"verifharness/c09"
 	"verifharness/c10"
+	"verifharness/c11"
 	"verifharness/c12"
 	"verifharness/c13"
 	"verifharness/c14"
@@ -65,6 +66,7 @@ var gens = map[string][]genFunc{
 var customImpl = map[string]func(){
 	"C15": c15.Impl,
 	"C06": c06.Impl,
+	"C11": c11.Impl,
 	"C14": c14.Impl,
 	"C17": c17.Impl,
 	"C19": c19.Impl,
@@ -107,6 +109,9 @@ func init() {
 		gens[p] = append(gens[p], forProp(p, pe.Gen))
 		if p == "C02" {
 			gens[p] = append(gens[p], forProp(p, cms.Gen))
+		}
+		if p == "C11" {
+			gens[p] = append(gens[p], c11.Gen)
 		}
 		if p == "C01" || p == "C02" || p == "C03" || p == "C08" {
 			gens[p] = append(gens[p], forProp(p, e2e.Gen))
@@ -153,6 +158,17 @@ func main() {
 // extra sub-commands registered by individual properties (e.g. C13 scenario drivers)
 var extras = map[string]func(args []string){
 	"C17 round2": func([]string) { c17.Round2(hx.Seed()) },
+	"C11 worker": func([]string) { c11.Worker() },
+	"C11 mkbases": func(a []string) {
+		if len(a) != 1 {
+			fmt.Fprintln(os.Stderr, "usage: vh C11 mkbases <dir>")
+			os.Exit(2)
+		}
+		if err := c11.MkBases(a[0]); err != nil {
+			fmt.Fprintln(os.Stderr, err)
+			os.Exit(1)
+		}
+	},
 }
 
 func extra(prop, cmd string, args []string) bool {
